@@ -223,13 +223,13 @@ class Translator:
             src_mod = self.imported.get(cx.module, {}).get(f.id, "")
             if (pfx + f.id) not in cx.vars and f.id not in cx.local_imports and \
                     (src_mod in ("numpy.random", "random") and f.id not in GLOBAL_RNG_OK and f.id not in ("Random", "SystemRandom")):
-                pre.append(("globalWrite",))
+                pre.append(("globalWrite", "rng"))
             if f.id in cx.local_imports and cx.local_imports[f.id] in ("numpy.random", "random") and f.id not in GLOBAL_RNG_OK:
-                pre.append(("globalWrite",))
+                pre.append(("globalWrite", "rng"))
         if isinstance(f, ast.Attribute):
             b = self.base_name(f.value)
             if b is not None and (pfx + b) not in cx.vars and b not in cx.vars and b in self.module_objects.get(cx.module, ()):
-                pre.append(("globalWrite",))                 # any method call on a module-level generator / mutable object
+                pre.append(("globalWrite", "rng"))                 # any method call on a module-level generator / mutable object
         # copy=<not literally True> turns array / astype / asarray / require / nan_to_num into views of their argument
         if name in COPY_KW_VIEWS:
             ck = [k for k in e.keywords if k.arg == "copy"]
@@ -256,9 +256,9 @@ class Translator:
             chain = chain[::-1]
             if len(chain) >= 2 and chain[-2] == "random" and chain[0] in ("numpy", "np", "random") \
                     and chain[-1] not in GLOBAL_RNG_OK:
-                pre.append(("globalWrite",))
+                pre.append(("globalWrite", "rng"))
             if chain[0] == "random" and len(chain) == 2 and chain[1] not in ("Random", "SystemRandom"):
-                pre.append(("globalWrite",))
+                pre.append(("globalWrite", "rng"))
         # in-place procedures / methods
         if name in INPLACE_FUNCS and e.args and not (isinstance(f, ast.Attribute) and self.base_name(f.value) not in
                                                       (None, "numpy", "np", "random")):
@@ -270,7 +270,7 @@ class Translator:
             if b is not None and b not in ("numpy", "np", "scipy", "random", "math"):
                 nm = b if b.startswith("self.") else pfx + b
                 if nm not in cx.vars and b in self.module_names.get(cx.module, ()):
-                    pre.append(("globalWrite",))             # e.g. _CALLS.append(1) on a module-level list
+                    pre.append(("globalWrite", "state"))             # e.g. _CALLS.append(1) on a module-level list
                 pre.append(("write", cx.var(nm)))
                 return []
         # calls to other translated aotools functions: inline
@@ -290,7 +290,7 @@ class Translator:
                 cx.notes.append("call depth / recursion at %s" % target)
                 for p in range(len(cx.params)):
                     pre.append(("write", p))
-                pre.append(("globalWrite",))
+                pre.append(("globalWrite", "rng"))
                 return []
             return self.inline(target, e, argsrc, kwsrc, cx, pre, pfx, depth)
         # view-returning functions / methods
@@ -372,7 +372,7 @@ class Translator:
         if isinstance(t, ast.Name):
             out.append(("assign", cx.var(pfx + t.id), srcs))
             if t.id in cx.globals_declared:
-                out.append(("globalWrite",))
+                out.append(("globalWrite", "state"))
         elif isinstance(t, (ast.Tuple, ast.List)):
             for x in t.elts:
                 self.target_write(x, cx, out, pfx, srcs, depth)
@@ -390,7 +390,7 @@ class Translator:
                 nm = (self_prefix(pfx, cx) if b.startswith("self.") else pfx) + b
                 if nm not in cx.vars and not b.startswith("self.") and \
                         (b in self.module_names.get(cx.module, ()) or b in self.module_funcs.get(cx.module, ())):
-                    out.append(("globalWrite",))             # store through a module-level object / function attribute
+                    out.append(("globalWrite", "state"))             # store through a module-level object / function attribute
                 v = cx.var(nm)
                 out.append(("write", v))
                 # NOTE: storing into an ndarray copies values; a Python list/dict would keep a reference to what was
@@ -426,9 +426,9 @@ class Translator:
                 else:
                     nm = (self_prefix(pfx, cx) if b.startswith("self.") else pfx) + b
                     if nm not in cx.vars and b in self.module_names.get(cx.module, ()):
-                        seq.append(("globalWrite",))
+                        seq.append(("globalWrite", "state"))
                     if isinstance(st.target, ast.Name) and st.target.id in cx.globals_declared:
-                        seq.append(("globalWrite",))
+                        seq.append(("globalWrite", "state"))
                     seq.append(("write", cx.var(nm)))
             elif isinstance(st, ast.Return):
                 s = self.sources(st.value, cx, pre, pfx, depth)
@@ -579,6 +579,8 @@ def flatten(ir):
     if kind == "write":
         return "(.write %d)" % ir[1]
     if kind == "globalWrite":
+        if RNG_ONLY[0] and len(ir) > 1 and ir[1] == "state":
+            return None               # projection used for C06: only the process-global random generators count
         return ".globalWrite"
     if kind == "ite":
         l, r = flatten(ir[1]), flatten(ir[2])
@@ -591,6 +593,8 @@ def flatten(ir):
     raise ValueError(kind)
 
 
+RNG_MODULES = ("aotools/turbulence/phasescreen.py", "aotools/turbulence/infinitephasescreen.py")
+RNG_ONLY = [False]     # flatten() projection switch (see translate(): rngProgs)
 RNG_CONSTRUCTORS = {"default_rng", "RandomState", "Generator", "Random", "SystemRandom"}
 
 
@@ -657,7 +661,7 @@ def translate(repo=REPO, modules=None, findings=True):
     except FileNotFoundError:
         known = []
     known_impure = {e["function"] for e in known if e.get("status") == "open" and e.get("function")}
-    entries, meta = [], {}
+    entries, meta, rng_entries = [], {}, []
     for q in sorted(funcs):
         if not public(q, funcs):
             continue
@@ -665,6 +669,12 @@ def translate(repo=REPO, modules=None, findings=True):
         k, m = len(cx.params), max(len(cx.vars), 1)
         term = flatten(prune(body, k)) or ".skip"
         entries.append((q, k, m, term))
+        if funcs[q][1] in RNG_MODULES:
+            RNG_ONLY[0] = True
+            try:
+                rng_entries.append((q, k, m, flatten(prune(body, k)) or ".skip"))
+            finally:
+                RNG_ONLY[0] = False
         meta[q] = {"params": cx.params, "vars": sorted(cx.vars, key=cx.vars.get), "notes": cx.notes,
                    "module": funcs[q][1], "line": funcs[q][0].lineno, "known_impure": q in known_impure}
     pure = [e for e in entries if e[0] not in known_impure]
@@ -678,7 +688,11 @@ def translate(repo=REPO, modules=None, findings=True):
     src = ("/- GENERATED by harness/translate_effects.py from /repo on every run. DO NOT EDIT. -/\n"
            "import AoVerif.Model.Effects\n\nnamespace AoVerif.Gen\nopen AoVerif.Effects\nopen AoVerif.Effects.Stmt\n\n"
            + defs + "\n" + lst("pureProgs", pure) + "\n" + lst("knownImpureProgs", impure) + "\n"
-           + "def progs : List (String × Prog) := pureProgs ++ knownImpureProgs\n\nend AoVerif.Gen\n")
+           + "def progs : List (String × Prog) := pureProgs ++ knownImpureProgs\n\n"
+           + "/-- the random-number projection of the screen modules' effect terms: as `progs`, except that writes to module-level state\n"
+           + "other than the process-global random generators are dropped (C06 is about the random stream; hidden state is C20's subject) -/\n"
+           + "def rngProgs : List (String × Prog) :=\n  [%s]\n\nend AoVerif.Gen\n"
+           % ",\n   ".join('("%s", ⟨%d, %d, %s⟩)' % e for e in rng_entries))
     # per-function obligations, each discharged by kernel evaluation; the generated proof script is untrusted input
     # to the kernel like any other proof
     chk = ("/- GENERATED by harness/translate_effects.py. DO NOT EDIT.  One kernel-checked obligation per public function. -/\n"
